@@ -50,8 +50,19 @@ def cases(draw):
             prog.append(["g", "G1 X%s Y%s" % (gen.fmt(rnd.lx("x", tx)), gen.fmt(rnd.lx("y", ty)))])
             for _ in range(draw(st.integers(1, 3))):
                 prog.append(["g", draw(st.sampled_from(["M117 done soon", "M204 S400", "M204 T900", "M73 P99", "M106 S0", "G4 P10", "M205 X6"]))])
-            k = draw(st.integers(0, 5))
-            if k >= 3:
+            k = draw(st.integers(0, 7))
+            if k >= 6:
+                # the episode is closed by a disable; exclusion is switched on again with the tool still inside the region (or
+                # moved into it while disabled) and the job ends before any further move: no episode is open
+                prog.append(["at", "ExcludeRegion", "off"])
+                if k == 7:
+                    tx, ty = rnd.target("in", draw(st.integers(0, 3)), draw(st.integers(0, 100)), draw(st.integers(0, 100)))
+                    prog.append(["g", "G1 X%s Y%s" % (gen.fmt(rnd.lx("x", tx)), gen.fmt(rnd.lx("y", ty)))])
+                prog.append(["at", "ExcludeRegion", "on"])
+                for _ in range(draw(st.integers(0, 2))):
+                    prog.append(["g", draw(st.sampled_from(["M73 P100", "M117 bye", "M204 S100", "G4 P1"]))])
+                prog.append(["hook", "gcode", "afterPrintDone"])
+            elif k >= 3:
                 prog.append(["hook", "gcode", "afterPrintDone"])
             elif k >= 1:
                 # the print ends (or pauses) first, then the hook is invoked with the episode still open
